@@ -20,6 +20,7 @@ import os
 
 _HERE = os.path.dirname(os.path.abspath(__file__))
 _counter = itertools.count()
+_hoisting = {}
 
 
 def load_known():
@@ -264,12 +265,35 @@ class Inliner:
         """-> new FunctionDef node (deep copy) with calls to new helpers inlined, or the original node if nothing to do"""
         if depth <= 0 or fi.qual in _stack:
             return fi.node
-        if not any(isinstance(n, ast.Call) and self.resolve(n, fi) for n in _walk_local(fi.node)):
-            return fi.node
         fn = copy.deepcopy(fi.node)
+        fn = self._prefold(fn, fi)
+        if not any(isinstance(n, ast.Call) and self.resolve(n, fi) for n in _walk_local(fn)):
+            return fi.node
         fn.body = self._block(fn.body, fi, depth, _stack + (fi.qual,))
+        fn = simplify(fn)
         ast.fix_missing_locations(fn)
         return fn
+
+    def _prefold(self, fn, owner):
+        """`filter(helper, xs)` / `map(helper, xs)` with a new helper as the function argument are put into comprehension form so
+        that the helper call becomes visible to the expression-form inlining"""
+        inl = self
+
+        class T(ast.NodeTransformer):
+            def visit_Call(self, n):
+                self.generic_visit(n)
+                if isinstance(n.func, ast.Name) and n.func.id in ("filter", "map") and len(n.args) == 2 and not n.keywords:
+                    f = n.args[0]
+                    probe = ast.Call(func=f, args=[ast.Name(id="__x", ctx=ast.Load())], keywords=[])
+                    if isinstance(f, (ast.Attribute, ast.Name)) and inl.resolve(probe, owner):
+                        k = next(_counter)
+                        var = f"__f{k}"
+                        call = ast.Call(func=copy.deepcopy(f), args=[ast.Name(id=var, ctx=ast.Load())], keywords=[])
+                        gen = ast.comprehension(target=ast.Name(id=var, ctx=ast.Store()), iter=n.args[1], ifs=[call] if n.func.id == "filter" else [], is_async=0)
+                        elt = ast.Name(id=var, ctx=ast.Load()) if n.func.id == "filter" else call
+                        return ast.copy_location(ast.GeneratorExp(elt=elt, generators=[gen]), n)
+                return n
+        return T().visit(fn)
 
     def _helper_body(self, helper, depth, stack):
         from .core import FuncInfo
@@ -401,4 +425,102 @@ class Inliner:
         if isinstance(s2, (ast.With, ast.AsyncWith)):
             for it in s2.items:
                 it.context_expr = self._expr(copy.deepcopy(it.context_expr), owner, depth, stack)
-        return [s2]
+        # helper calls that are left inside an expression and are evaluated exactly once, unconditionally, when the statement runs
+        # (not under and/or, a conditional expression, a comprehension, a lambda or a `while` test) are hoisted into a temporary
+        # that is assigned by the statement-form inlining:  f(self._h(x)).g()  ->  t = <body of _h>; f(t).g()
+        pre = []
+        if not isinstance(s2, ast.While) and not _hoisting.get("off"):
+            for fld, v in list(ast.iter_fields(s2)):
+                if isinstance(v, ast.expr) and not (isinstance(s2, (ast.For, ast.AsyncFor)) and fld == "target"):
+                    pre_v, v2 = self._hoist(v, owner, depth, stack)
+                    pre += pre_v
+                    setattr(s2, fld, v2)
+                elif isinstance(v, list) and v and isinstance(v[0], ast.expr) and fld != "targets":
+                    nv = []
+                    for x in v:
+                        pre_v, x2 = self._hoist(x, owner, depth, stack)
+                        pre += pre_v
+                        nv.append(x2)
+                    setattr(s2, fld, nv)
+        return pre + [s2]
+
+    def _hoist(self, e, owner, depth, stack):
+        """-> (statements to run first, expression with hoisted helper calls replaced by temporaries)"""
+        pre = []
+        inl = self
+
+        def go(n, cond):
+            # returns replacement for n; `cond` = evaluated conditionally or repeatedly
+            if isinstance(n, (ast.Lambda, ast.ListComp, ast.SetComp, ast.DictComp, ast.GeneratorExp)):
+                return n
+            if isinstance(n, ast.BoolOp):
+                n.values = [go(v, cond or i > 0) for i, v in enumerate(n.values)]
+                return n
+            if isinstance(n, ast.IfExp):
+                n.test = go(n.test, cond)
+                n.body = go(n.body, True)
+                n.orelse = go(n.orelse, True)
+                return n
+            if isinstance(n, ast.Compare) and len(n.ops) > 1:
+                n.left = go(n.left, cond)
+                n.comparators = [go(n.comparators[0], cond)] + [go(c, True) for c in n.comparators[1:]]
+                return n
+            for fld, v in list(ast.iter_fields(n)):
+                if isinstance(v, ast.expr):
+                    setattr(n, fld, go(v, cond))
+                elif isinstance(v, list):
+                    setattr(n, fld, [go(x, cond) if isinstance(x, ast.expr) else (go_kw(x, cond) if isinstance(x, ast.keyword) else x) for x in v])
+            if isinstance(n, ast.Call) and not cond:
+                r = inl.resolve(n, owner)
+                if r and r[0].qual not in stack:
+                    k = next(_counter)
+                    tmp = f"__h{k}_hoisted"
+                    asg = ast.Assign(targets=[ast.Name(id=tmp, ctx=ast.Store())], value=n, lineno=getattr(n, "lineno", 0), col_offset=0)
+                    _hoisting["off"] = True
+                    try:
+                        res = inl._stmt(asg, owner, depth, stack)
+                    finally:
+                        _hoisting.pop("off", None)
+                    if len(res) == 1 and res[0] is asg or (len(res) == 1 and isinstance(res[0], ast.Assign) and res[0].value is n):
+                        return n          # could not be inlined: leave the call where it is
+                    pre.extend(res)
+                    return ast.copy_location(ast.Name(id=tmp, ctx=ast.Load()), n)
+            return n
+
+        def go_kw(kw, cond):
+            kw.value = go(kw.value, cond)
+            return kw
+        e2 = go(copy.deepcopy(e), False)
+        if not pre:
+            return [], e
+        return pre, e2
+
+
+def simplify(fn):
+    """local rewrites that make inlined code read like hand-written code: getattr(x, "name") -> x.name; a comprehension whose
+    iterable is a filter-only generator is fused with it:  [e for x in (y for y in S if p(y))] -> [e for x in S if p(x)]"""
+    class T(ast.NodeTransformer):
+        def visit_Call(self, n):
+            self.generic_visit(n)
+            if isinstance(n.func, ast.Name) and n.func.id == "getattr" and len(n.args) == 2 and not n.keywords and \
+                    isinstance(n.args[1], ast.Constant) and isinstance(n.args[1].value, str) and n.args[1].value.isidentifier():
+                return ast.copy_location(ast.Attribute(value=n.args[0], attr=n.args[1].value, ctx=ast.Load()), n)
+            return n
+
+        def _fuse(self, n):
+            self.generic_visit(n)
+            gens = []
+            for g in n.generators:
+                it = g.iter
+                if isinstance(it, (ast.GeneratorExp, ast.ListComp)) and len(it.generators) == 1 and isinstance(it.elt, ast.Name) and \
+                        isinstance(it.generators[0].target, ast.Name) and it.elt.id == it.generators[0].target.id and isinstance(g.target, ast.Name):
+                    inner = it.generators[0]
+                    ren = _Subst({inner.target.id: ast.Name(id=g.target.id, ctx=ast.Load())})
+                    ifs = [ren.visit(copy.deepcopy(c)) for c in inner.ifs]
+                    gens.append(ast.comprehension(target=g.target, iter=inner.iter, ifs=ifs + g.ifs, is_async=0))
+                else:
+                    gens.append(g)
+            n.generators = gens
+            return n
+        visit_ListComp = visit_GeneratorExp = visit_SetComp = visit_DictComp = _fuse
+    return T().visit(fn)
